@@ -10,6 +10,12 @@
        HandDelta(old, new) between the role bits (ENQUEUED: +2, suspended / inactive: +2) and the hand; the
        drop of the external count to -1 hands its +1 to the releasing thread; the start of a child's dispose hands
        the child's +1 on its target to the disposing thread; becoming somebody's target takes +1 from the hand.
+     * dispatch_set_target_queue on an ACTIVE queue ("Retarget" event, logged before the call): from that moment the
+       new target is the queue's PENDING target - a targeter role that the calling thread must pay for with its own +1
+       (_dispatch_retain(tq) in _dispatch_lane_set_target_queue) before it leaves the library, whether the retarget
+       barrier ran inline or was deferred; the old target keeps its role until the thread that runs the callback
+       (_dispatch_lane_legacy_set_target_queue) releases it - exactly once: that release is recognised as a -1 by a
+       thread that holds nothing on the old target while a retarget away from it is pending.
      * at a rest point (API return, start / end of a client callout) the hand is settled (RefsWord!Settle); a
        serial queue without internal targeters ("strict") never has parked references.
      * the first pusher of an empty list holds the +2 it will hand to the wakeup before it publishes the head
@@ -45,7 +51,7 @@ S0 == [alive |-> [o \in Objs |-> "none"], kind |-> [o \in Objs |-> "none"], stri
        ref |-> [o \in Objs |-> 0], xref |-> [o \in Objs |-> 0], st |-> [o \in Objs |-> StIdle], tnn |-> [o \in Objs |-> FALSE],
        held |-> [o \in Objs |-> 0], busy |-> [o \in Objs |-> 0], targ |-> [o \in Objs |-> 0],
        hand |-> [o \in Objs |-> [t \in Thr |-> 0]], parked |-> [o \in Objs |-> 0], fp |-> [o \in Objs |-> [t \in Thr |-> NoPush]],
-       tgt |-> [o \in Objs |-> -1], fins |-> [o \in Objs |-> 0], dtors |-> [o \in Objs |-> 0], dthr |-> [o \in Objs |-> -1]]
+       tgt |-> [o \in Objs |-> -1], pend |-> [o \in Objs |-> -1], fins |-> [o \in Objs |-> 0], dtors |-> [o \in Objs |-> 0], dthr |-> [o \in Objs |-> -1]]
 
 TInit == l = 2 /\ S = S0 /\ err = "" /\ TLCSet(1, 0)
 
@@ -63,7 +69,7 @@ HCreate(s, r) ==
         st0 == IF r.inactive THEN [StIdle EXCEPT !.inact = TRUE, !.na = TRUE] ELSE StIdle IN
     Out([s EXCEPT !.alive[o] = "live", !.kind[o] = r.kind, !.strict[o] = r.strict, !.ref[o] = 0, !.xref[o] = 0, !.st[o] = st0,
                   !.tnn[o] = FALSE, !.held[o] = 1, !.busy[o] = 0, !.targ[o] = 0, !.hand[o] = [t \in Thr |-> 0], !.parked[o] = 0,
-                  !.fp[o] = [t \in Thr |-> NoPush], !.tgt[o] = -1, !.fins[o] = 0, !.dtors[o] = 0, !.dthr[o] = -1], "")
+                  !.fp[o] = [t \in Thr |-> NoPush], !.tgt[o] = -1, !.pend[o] = -1, !.fins[o] = 0, !.dtors[o] = 0, !.dthr[o] = -1], "")
 \* counters as the creator left them: one reference of the external count, +2 of an inactive queue, for a source
 \* the +1 that lives until DSF_DELETED (parked)
 HInit(s, r) ==
@@ -77,6 +83,20 @@ HTarg(s, r) ==
         a == IF r.a >= 0 THEN [AddHand(s, r.a, t, -1) EXCEPT !.targ[r.a] = @ + 1] ELSE s
         b == IF r.b >= 0 THEN [AddHand(a, r.b, t, 1) EXCEPT !.targ[r.b] = @ - 1] ELSE a IN
     Out([b EXCEPT !.tgt[r.o] = r.a], "")
+\* legacy retarget of q = r.o to r.a (old target r.b, -1 = a global root queue whose counts are inert)
+HRetarget(s, r) ==
+    LET t == r.t q == r.o
+        s1 == [AddHand(s, r.a, t, -1) EXCEPT !.targ[r.a] = @ + 1] IN
+    IF s.alive[r.a] # "live" THEN Out(s, "retarget to a disposed queue")
+    ELSE IF r.b < 0 THEN Out([s1 EXCEPT !.tgt[q] = r.a], "")
+    ELSE Out([s1 EXCEPT !.pend[q] = r.a], IF s.tgt[q] = r.b THEN "" ELSE "driver: old target mismatch")
+\* the callback's release of the old target o by thread t: some live queue targets o and has a pending retarget
+PendingFrom(s, o) == {q \in Objs : s.alive[q] = "live" /\ s.tgt[q] = o /\ s.pend[q] >= 0}
+Switch(s, o, t, n) ==
+    IF n = 1 /\ s.hand[o][t] <= 0 /\ PendingFrom(s, o) # {}
+    THEN LET q == CHOOSE x \in PendingFrom(s, o) : TRUE IN
+         [AddHand(s, o, t, 1) EXCEPT !.targ[o] = @ - 1, !.tgt[q] = s.pend[q], !.pend[q] = -1]
+    ELSE s
 HRetain(s, r) == Out([s EXCEPT !.held[r.o] = @ + 1], IF s.alive[r.o] = "live" THEN "" ELSE "client retains an object that was disposed")
 HRelease(s, r) == Out([s EXCEPT !.held[r.o] = @ - 1], IF s.alive[r.o] = "live" THEN "" ELSE "client releases an object that was disposed")
 
@@ -109,7 +129,8 @@ DisposeErr(s, o, t) ==
     FirstErr(<< <<s.xref[o] = -1, "disposed while the external count is not -1">>,
                 <<s.held[o] = 0, "disposed while the application holds a reference">>,
                 <<s.busy[o] = 0, "disposed while items submitted to it are pending or running">>,
-                <<s.targ[o] = 0, "disposed while another object targets it">>,
+                <<s.targ[o] = 0, "disposed while another object has it as its current or pending target">>,
+                <<s.pend[o] < 0, "disposed while its own retarget barrier has not run">>,
                 <<~IsLaneLike(s.kind[o]) \/ IsIdle(s.st[o]), "disposed with a dq_state that is not idle">>,
                 <<~s.tnn[o], "disposed while its item list is not empty">>,
                 <<s.parked[o] + SumHand(s.hand[o]) = 0, "disposed while references are still in flight (ledger does not balance)">>,
@@ -131,7 +152,8 @@ HR(s, r) ==
     ELSE IF r.op = "sub" THEN
          LET n == r.old - r.new
              k == ReleaseN(r.old, n)
-             s1 == AddHand([s EXCEPT !.ref[o] = r.new], o, t, -n)
+             sw == Switch(s, o, t, n)
+             s1 == AddHand([sw EXCEPT !.ref[o] = r.new], o, t, -n)
              tq == s.tgt[o]
              \* the dispose that starts here ends with the release of the target: that +1 is now in t's hand
              s2 == IF k.kind = "dispose"
@@ -204,6 +226,7 @@ HIdle(s, r) == LET leaked == {o \in Objs : s.alive[o] = "live"} IN
 
 Handle(s, r) ==
     CASE r.e = "Create" -> HCreate(s, r) [] r.e = "Init" -> HInit(s, r) [] r.e = "Targ" -> HTarg(s, r)
+      [] r.e = "Retarget" -> HRetarget(s, r)
       [] r.e = "Retain" -> HRetain(s, r) [] r.e = "Release" -> HRelease(s, r)
       [] r.e = "X" -> HX(s, r) [] r.e = "R" -> HR(s, r) [] r.e = "SR" -> HSR(s, r)
       [] r.e = "St" -> HSt(s, r) [] r.e = "Tail" -> HTail(s, r) [] r.e = "Head" -> HHead(s, r)
